@@ -156,6 +156,14 @@ pub fn run_c02(ctx: &Ctx) -> ! {
         check_c02,
     );
     rep.explore(
+        "braid_audit_ladders",
+        "3-8 steps of long ladders (120-420 rungs each), branches, runs and merges: thousands of convergence points spread over \
+         many spilled convergence-map blocks with overlapping max-cut ranges; same oracle",
+        || (crate::world::strategies::ladders_recipe(), scenario::script_strategy()).prop_map(|(recipe, sc)| Case { recipe, scripts: vec![sc], subset: 0 }),
+        ctx.pick(6, 200),
+        check_c02,
+    );
+    rep.explore(
         "braid_audit_medium",
         "same with <= 200 recipe steps and runs (braids of dozens to hundreds of commands)",
         || case_strategy(200, 2, 4, 1..2),
@@ -187,6 +195,14 @@ pub fn run_c03(ctx: &Ctx) -> ! {
         "ladder worlds with 258-300 rungs: braids and convergence maps beyond their 256-entry in-memory blocks; same oracle",
         || (crate::world::strategies::spill_recipe(), scenario::script_strategy()).prop_map(|(recipe, sc)| Case { recipe, scripts: vec![sc], subset: 0 }),
         ctx.pick(4, 120),
+        scenario::check_c03,
+    );
+    rep.explore(
+        "braid_ladders",
+        "3-8 steps of long ladders (120-420 rungs each), branches, runs and merges: thousands of convergence points spread over \
+         many spilled convergence-map blocks with overlapping max-cut ranges; same oracle",
+        || (crate::world::strategies::ladders_recipe(), scenario::script_strategy()).prop_map(|(recipe, sc)| Case { recipe, scripts: vec![sc], subset: 0 }),
+        ctx.pick(14, 300),
         scenario::check_c03,
     );
     rep.explore(
